@@ -142,7 +142,9 @@ def _run_build(root, mode):
     env["PYTHONDONTWRITEBYTECODE"] = "1"
     # interpreter default flags (-O3 ...) as a wheel build would use; only debug info is dropped
     # (halves the compile time of deserializers.c, no effect on behaviour)
-    env["CFLAGS"] = (env.get("CFLAGS", "") + " -g0 -w").strip()
+    # (setuptools: a CFLAGS environment variable *replaces* the configured flags, so repeat them)
+    import sysconfig
+    env["CFLAGS"] = ((sysconfig.get_config_var("CFLAGS") or "-O3") + " -g0 -w").strip()
     cmd = [sys.executable, "-W", "ignore", os.path.abspath(__file__), "--child", mode]
     t0 = time.time()
     r = subprocess.run(cmd, cwd=root, env=env, stdout=subprocess.PIPE, stderr=subprocess.STDOUT, text=True)
